@@ -116,7 +116,8 @@ def run(rep, facts):
                 if fn == "into_request":
                     # (request, input): input = Vec::from(self.input) truncated to self.input_len
                     tr = r.called("std::vec::Vec::truncate")
-                    fr = [c for c in r.calls if c[0].endswith("From>::from") or c[0].endswith("::from")]
+                    fr = [c for c in r.calls if c[0].endswith("From>::from") or c[0].endswith("::from") or c[0].endswith("Into>::into") or c[0].endswith("::into")
+                          or c[0].endswith("::into_vec")]     # Vec::from(b) == b.into() == b.into_vec() for Box<[u8]>
                     okpay = okpay and len(tr) == 1 and self_field(tr[0][1][1], 'input_len') and any(self_field(c[1][0], 'input') for c in fr)
                     req = ir.peel(pay[3][0][1]) if pay[0] == 'agg' else None
                     okpay = okpay and req is not None and req[0] == 'field' and req[1][0] == 'variant' and req[1][2] == 'Done'
